@@ -159,8 +159,22 @@ namespace {
          }
       }
       for (int d = 0; d < 5; ++d) {
-         auto enc = lex.make_enclosure(static_cast<ipr::Delimiter>(d), *lex.make_literal(lex.int_type(), u8"1"));
-         offer("xpr_expr", "Enclosure delimiter " + std::to_string(d), "", [enc](ipr::Printer& pp) { pp << ipr::xpr_expr(*enc); });
+         // every delimiter kind around every shape of operand: a literal, an empty list, lists of one and two, nothing at all,
+         // another enclosure; alone and as the initializer of a variable
+         auto empty = lex.make_expr_list();
+         auto one = lex.make_expr_list(); one->push_back(lex.make_literal(lex.int_type(), u8"1"));
+         auto two = lex.make_expr_list(); two->push_back(lex.make_literal(lex.int_type(), u8"1")); two->push_back(lex.make_literal(lex.int_type(), u8"2"));
+         std::vector<std::pair<std::string, const ipr::Expr*>> operands {
+            {"literal", lex.make_literal(lex.int_type(), u8"1")}, {"empty list", empty}, {"list of one", one}, {"list of two", two},
+            {"phantom", lex.make_phantom()}, {"enclosure", lex.make_enclosure(ipr::Delimiter::Nothing, *lex.make_expr_list())} };
+         for (auto& o : operands) {
+            auto enc = lex.make_enclosure(static_cast<ipr::Delimiter>(d), *o.second);
+            auto what = "Enclosure delimiter " + std::to_string(d) + " around " + o.first;
+            offer("xpr_expr", what, "", [enc](ipr::Printer& pp) { pp << ipr::xpr_expr(*enc); });
+            auto v = z.mk.w.unit.global_region()->declare_var(lex.get_identifier(vh::u8("enc" + std::to_string(d) + o.first)), lex.int_type());
+            v->init = enc;
+            offer("xpr_decl", what + " as initializer", "", [v](ipr::Printer& pp) { pp << ipr::xpr_decl(*v, true); });
+         }
       }
       // deep nesting and large pending indentation: every nesting construct repeated, and mixed, to depths where the
       // indentation no longer fits whatever small unit an implementation writes it in
